@@ -96,9 +96,14 @@ def run_batch(b, sections, props, host, max_code, result_sink, extra_agent_args=
 
 def run_diff(result, batches, sections, props, host_for=None, max_code=1 << 30, extra_agent_args=None):
     """Run all batches in parallel and merge into `result`."""
+    hosts = sorted(K.available_hosts())
+    for i, b in enumerate(batches):
+        # host dimension: every other batch runs on the main 3.12 host, the rest rotate over all hosts able to
+        # import the package (a file of the host's own version then also takes the native fast path there)
+        b["host"] = (host_for(b["v"]) if host_for else K.MAIN_HOST) if i % 2 == 0 else hosts[(i // 2) % len(hosts)]
+
     def job(b):
-        host = host_for(b["v"]) if host_for else K.MAIN_HOST
-        return run_batch(b, sections, props, host, max_code, result, extra_agent_args)
+        return run_batch(b, sections, props, b["host"], max_code, result, extra_agent_args)
 
     outs = K.pmap(job, batches)
     for b, o in zip(batches, outs):
@@ -108,6 +113,7 @@ def run_diff(result, batches, sections, props, host_for=None, max_code=1 << 30, 
         result.merge_agent(o)
         result.count("batches")
         result.count("files_v" + K.vstr(b["v"]), o.get("counters", {}).get("files", 0))
+        result.count("files_on_host_" + K.vstr(b["host"]), o.get("counters", {}).get("files", 0))
 
 
 def default_host_for(v):
